@@ -99,9 +99,9 @@ func Check(c *run.Ctx, wl chw.WorkCfg, h *chw.History) {
 	}
 	c.Event("foreign_rows", len(a.Foreign))
 	c.Event("duplicated_rows", len(a.Dup))
-	// rows of a single-chunk request are all in the block whose outcome it was told
+	// rows of a request are all in the block(s) whose outcome it was told
 	for i, it := range h.Items {
-		if it.Rec == nil || it.Rec.Status < 200 || it.Rec.Status > 299 || !it.Single || it.Hostile {
+		if it.Rec == nil || it.Rec.Status < 200 || it.Rec.Status > 299 || it.Hostile {
 			continue
 		}
 		var main []string
@@ -141,10 +141,31 @@ func Check(c *run.Ctx, wl chw.WorkCfg, h *chw.History) {
 		}
 		if whole {
 			c.Floor("single-chunk requests found whole in one successful block", 20, 1)
-		} else {
-			c.Violation("split-or-left-out/"+it.Kind+"/"+phaseKind(it.Phase), fmt.Sprintf("single-chunk %s request (%s, phase %s, cfg %s) answered %d: no successful block contains all %d of its rows", it.Kind, it.Req.Proto, it.Phase, ck, it.Rec.Status, len(main)),
-				map[string]any{"cfg": wl, "proto": it.Req.Proto, "phase": it.Phase, "rows": first(main, 10)})
+			continue
 		}
+		// not in one block: the parser may have handed the body over in several portions (it cuts by the size of the
+		// rows it produces - resource attributes are repeated on every span - which cannot be told from the body
+		// size). Each portion has its own block; what the request was told covers all of them, so every row must be
+		// in SOME successful block that returned before the answer.
+		var out []string
+		for _, k := range main {
+			ok := false
+			for _, oc := range a.Occ[k] {
+				if oc.Blk.Succeeded() && oc.Blk.RetT < it.Rec.AnsT {
+					ok = true
+					break
+				}
+			}
+			if !ok {
+				out = append(out, k)
+			}
+		}
+		if len(out) == 0 {
+			c.Cover("requests", "answered 2xx, rows spread over several successful blocks (several parser portions)", 1)
+			continue
+		}
+		c.Violation("left-out/"+it.Kind+"/"+phaseKind(it.Phase), fmt.Sprintf("%s request (%s, phase %s, cfg %s) answered %d: %d of its %d rows are in no successful block that returned before the answer, e.g. %s", it.Kind, it.Req.Proto, it.Phase, ck, it.Rec.Status, len(out), len(main), out[0]),
+			map[string]any{"cfg": wl, "proto": it.Req.Proto, "phase": it.Phase, "rows": first(out, 10)})
 	}
 }
 
